@@ -39,13 +39,21 @@ impl Peeked {
 }
 
 impl AsyncRead for Peeked {
-    fn poll_read(mut self: Pin<&mut Self>, cx: &mut Context<'_>, buf: &mut ReadBuf<'_>) -> Poll<io::Result<()>> {
+    fn poll_read(
+        mut self: Pin<&mut Self>,
+        cx: &mut Context<'_>,
+        buf: &mut ReadBuf<'_>,
+    ) -> Poll<io::Result<()>> {
         Pin::new(&mut self.0).poll_read(cx, buf)
     }
 }
 
 impl AsyncWrite for Peeked {
-    fn poll_write(mut self: Pin<&mut Self>, cx: &mut Context<'_>, data: &[u8]) -> Poll<io::Result<usize>> {
+    fn poll_write(
+        mut self: Pin<&mut Self>,
+        cx: &mut Context<'_>,
+        data: &[u8],
+    ) -> Poll<io::Result<usize>> {
         Pin::new(&mut self.0).poll_write(cx, data)
     }
 
@@ -60,7 +68,9 @@ impl AsyncWrite for Peeked {
 
 /// `TlsListener::read_client_random_and_wrap_stream`: the peek alone
 pub async fn peek(stream: TcpStream) -> io::Result<(Peeked, Option<Vec<u8>>)> {
-    TlsListener::verif_peek(stream).await.map(|(s, r)| (Peeked(s), r))
+    TlsListener::verif_peek(stream)
+        .await
+        .map(|(s, r)| (Peeked(s), r))
 }
 
 /// What `TlsListener::listen` returns: the parsed ClientHello and the pending handshake
@@ -85,7 +95,12 @@ impl Acceptor {
     }
 
     /// `TlsAcceptor::accept` with DER certificate chain and key; `h2` selects HTTP/2, otherwise HTTP/1.1
-    pub async fn accept(self, h2: bool, cert_chain: Vec<Vec<u8>>, key: Vec<u8>) -> io::Result<Accepted> {
+    pub async fn accept(
+        self,
+        h2: bool,
+        cert_chain: Vec<Vec<u8>>,
+        key: Vec<u8>,
+    ) -> io::Result<Accepted> {
         self.0
             .accept(
                 if h2 { Protocol::Http2 } else { Protocol::Http1 },
@@ -112,13 +127,21 @@ impl Accepted {
 }
 
 impl AsyncRead for Accepted {
-    fn poll_read(mut self: Pin<&mut Self>, cx: &mut Context<'_>, buf: &mut ReadBuf<'_>) -> Poll<io::Result<()>> {
+    fn poll_read(
+        mut self: Pin<&mut Self>,
+        cx: &mut Context<'_>,
+        buf: &mut ReadBuf<'_>,
+    ) -> Poll<io::Result<()>> {
         Pin::new(&mut self.0).poll_read(cx, buf)
     }
 }
 
 impl AsyncWrite for Accepted {
-    fn poll_write(mut self: Pin<&mut Self>, cx: &mut Context<'_>, data: &[u8]) -> Poll<io::Result<usize>> {
+    fn poll_write(
+        mut self: Pin<&mut Self>,
+        cx: &mut Context<'_>,
+        data: &[u8],
+    ) -> Poll<io::Result<usize>> {
         Pin::new(&mut self.0).poll_write(cx, data)
     }
 
